@@ -129,6 +129,36 @@ pub fn annotated(oracle: Oracle) -> Box<dyn Space> {
     space("G-PROG/annotated/prelude", count, 8, desc, Box::new(gen), oracle)
 }
 
+/// Every leaf inside every context with a block body, with an annotation line directly in
+/// front of it inside that body (and, second form, another one in front of the compound).
+pub fn annotated_bodies(oracle: Oracle) -> Box<dyn Space> {
+    let nl = leaves().len() as u64;
+    let nc = CONTEXTS.len() as u64;
+    let count = nl * nc * 2;
+    let desc = json!({"space": "G-PROG annotations inside bodies", "contexts": CONTEXTS.iter().map(|c| format!("{:?}", c)).collect::<Vec<_>>(), "forms": 2, "prelude": true});
+    let gen = move |i: u64| -> Option<ProgCase> {
+        let ls = leaves();
+        let form = i % 2;
+        let leaf = &ls[((i / 2) % nl) as usize];
+        let c = CONTEXTS[(i / 2 / nl) as usize];
+        if !leaf.sema || leaf.global_only {
+            return None;
+        }
+        let mut st = c.wrap(leaf.stmt.clone(), 1);
+        if !annotate_inner(&mut st, &leaf.stmt, "@inner note 1") {
+            return None;
+        }
+        let mut stmts = prelude();
+        if form == 1 {
+            stmts.push(Stmt::Annotation("@outer".into()));
+        }
+        stmts.push(st);
+        stmts.push(Stmt::Reset(crate::model::prog::Operand::Id("r".into())));
+        Some(ProgCase { stmts, tag: format!("annotated-body[{}]/{:?}/leaf={}", form, c, leaf.name) })
+    };
+    space("G-PROG/annotated-bodies/prelude", count, 16, desc, Box::new(gen), oracle)
+}
+
 fn rename_decl(st: &mut Stmt, pos: usize) {
     let sfx = format!("_{}", pos);
     match st {
